@@ -200,7 +200,7 @@ def run(chk):
         # one bitmap
         from fontTools.ttLib import TTFont as _TT
 
-        for k, fmt in enumerate(["picosvg", "glyf_colr_1"] if quick else ["picosvg", "glyf_colr_1", "glyf_colr_0", "untouchedsvg", "cff_colr_1"]):
+        for k, fmt in enumerate(["picosvg", "glyf_colr_1", "cff_colr_1"] if quick else ["picosvg", "glyf_colr_1", "cff_colr_1", "glyf_colr_0", "untouchedsvg", "cff2_colr_1"]):
             r2 = common.rng("C07", "mc-gaps", k)
             n = 3 + k % 3
             cfg = build.base_config(color_format=fmt, keep_glyph_names=True, clip_to_viewbox=False)
